@@ -466,6 +466,11 @@ func (w *clWorld) prefixOf(a, b clHead) bool {
 //	       swap/<hexpath>     serve the honest response of another path
 //	       split/<log>@<size> tiles only: right-edge tiles of that snapshot's tree come from it, all others honestly (split-view server)
 //	       src/<log>@<size>   serve the same path from another snapshot (stale head, fork, forged log)
+//	       emix/<log>@<size>  hash tiles only, entry-level splice: every hash entry of the tile that also exists in that
+//	                          snapshot's tree is replaced by that snapshot's stored hash, the other entries stay as served
+//	       emixw/<log>@<size> the same, but only in the CURRENT version of a partial tile (the request whose width is the
+//	                          width the tile has in the tree the tile source serves); narrower versions of the same tile and
+//	                          full tiles are served unchanged (a server answering the widths of one tile differently)
 //	       sigsrc/<log>@<size> lookup only: record+tree text from that snapshot, signature lines from the honest response
 //	       recsrc/<log>@<size> lookup only: record part from that snapshot, signed tree head from the honest response
 //	       hashsrc/<log>@<size> lookup only: response from that snapshot with the key hash bytes of the honest key spliced in
@@ -621,6 +626,34 @@ func (f clFault) apply(e *clEnv, path string, honest []byte, herr error) ([]byte
 			return d, err, true
 		}
 		return honest, herr, true
+	case "emix", "emixw":
+		// equivocating server, entry-level splice (see the fault table above).  The tile keeps its length; only
+		// entries that the other snapshot's tree has as stored hashes are overwritten with that tree's hashes.
+		sn, ok := e.w.parseSrc(f.param)
+		t, ok2 := clTileOfPath(path)
+		if !ok || !ok2 {
+			return nil, nil, false
+		}
+		if herr != nil || t.L < 0 || t.H < 1 || t.H > 30 || t.H*t.L > 40 || len(honest) != t.W*tlog.HashSize {
+			return honest, herr, true
+		}
+		level := t.H * t.L
+		first := t.N << uint(t.H)
+		if f.kind == "emixw" {
+			avail := int64(e.tileSrc.n)>>uint(level) - first
+			if avail >= 1<<uint(t.H) || int64(t.W) != avail {
+				return honest, herr, true
+			}
+		}
+		d := append([]byte(nil), honest...)
+		for i := 0; i < t.W; i++ {
+			idx := first + int64(i)
+			if (idx+1)<<uint(level) <= int64(sn.n) {
+				hx := sn.log.hashes[tlog.StoredHashIndex(level, idx)]
+				copy(d[i*tlog.HashSize:], hx[:])
+			}
+		}
+		return d, nil, true
 	case "src", "sigsrc", "hashsrc", "recsrc":
 		s, ok := e.w.parseSrc(f.param)
 		if !ok {
